@@ -81,28 +81,24 @@ Proof. exact name_implies_committed_lemma. Qed.
 
 (* ---- the dataset store (.datasets) -------------------------------------------------------- *)
 (* [J f]: every node has the kind its name says, parents are directories, links point to directories
-   ([shape], executable as [shapeb]) and every model file that links to dataN.csv finds there the
-   complete csv of its own dataset ([link_inv]).  [ds_inv f]: every index directory
-   .datasets/.hash/<h> has exactly one entry dataN.csv whose csv and datainfo are complete and hold
-   that dataset (implied by the executable [ds_ok]).  Both hold of the empty directory. *)
-Theorem consistent_initial : J [] /\ ds_inv [].
-Proof. exact (conj J_empty ds_inv_empty). Qed.
+   ([shape], executable as [shapeb]); every model file that links to dataN.csv finds there the
+   complete csv of its own dataset ([link_inv]); every index entry .datasets/.hash/<h>/dataN.csv is
+   the only entry of its directory and dataN.csv / dataN.datainfo are complete and hold that dataset
+   ([ds_inv]).  Since the index entry is created last (fix b547698) all three hold in EVERY
+   intermediate and torn state, and of the empty directory. *)
+Theorem consistent_initial : J [].
+Proof. exact J_empty. Qed.
 
-Theorem ds_ok_consistent : forall f, ds_ok f = true -> ds_inv f.
-Proof. exact ds_ok_ds_inv. Qed.
 Theorem shapeb_sound : forall f, shapeb f = true -> shape f.
 Proof. exact shapeb_shape. Qed.
 
 (* Complete workloads (whatever their items do or raise) keep the store consistent ... *)
-Theorem consistent_closed :
-  forall (f0 : fs) (w : list witem), J f0 -> ds_inv f0 -> J (run w f0) /\ ds_inv (run w f0).
+Theorem consistent_closed : forall (f0 : fs) (w : list witem), J f0 -> J (run w f0).
 Proof. exact consistent_closed_lemma. Qed.
 
-(* ... and at EVERY crash point of a workload started in a consistent state (torn or not) the tree is
-   well formed and no model file links to a missing, torn or foreign csv. *)
-Theorem crash_keeps_links :
-  forall (f0 : fs) (w : list witem) (k : nat) (torn : option nat),
-    J f0 -> ds_inv f0 -> J (crash_w f0 w k torn).
+(* ... and so does every crash point of every workload, torn or not: histories compose. *)
+Theorem crash_keeps_consistent :
+  forall (f0 : fs) (w : list witem) (k : nat) (torn : option nat), J f0 -> J (crash_w f0 w k torn).
 Proof. exact crash_J_lemma. Qed.
 
 (* Dataset fidelity: whatever model file exists after the crash, the data file it names is the
@@ -110,26 +106,23 @@ Proof. exact crash_J_lemma. Qed.
    visible_entry_complete: a reader gets the stored model code AND the stored dataset). *)
 Theorem dataset_faithful :
   forall (f0 : fs) (w : list witem) (k : nat) (torn : option nat) (K K' h n : N),
-    J f0 -> ds_inv f0 ->
+    J f0 ->
     lookup (crash_w f0 w k torn) (model_file K) = Some (File [T_MODEL; K'; h; n]) -> n <> 0%N ->
     lookup (crash_w f0 w k torn) (csv n) = Some (File [T_CSV; h]).
 Proof. exact dataset_faithful_lemma. Qed.
 
-(* store_after_crash_partial: after a crash that leaves the dataset index consistent (guard [ds_ok],
-   see Refuted.shared_dataset_refuted for why it is needed), storing ANY model whose key has no
-   PENDING marker succeeds — models sharing a dataset with the crashed one included — commits, is
-   visible, and leaves the store consistent for the next one. *)
-Theorem store_after_crash_partial :
+(* store_after_crash (full strength since fix b547698 — formerly guarded by ds_ok): after ANY crash,
+   torn or not, storing ANY model whose key has no PENDING marker succeeds — models sharing a dataset with
+   the crashed one included — commits, is visible, and leaves the store consistent for the next one. *)
+Theorem store_after_crash :
   forall (f0 : fs) (w : list witem) (k : nat) (torn : option nat) (m : mdl),
-    J f0 -> ds_inv f0 ->
-    ds_ok (crash_w f0 w k torn) = true ->
+    J f0 ->
     exists_ (crash_w f0 w k torn) (pending (m_key m)) = false ->
     item_res (WDbStore m) (crash_w f0 w k torn) = inr tt
     /\ visible (run [WDbStore m] (crash_w f0 w k torn)) (m_key m) = true
-    /\ ds_inv (run [WDbStore m] (crash_w f0 w k torn)) /\ J (run [WDbStore m] (crash_w f0 w k torn)).
+    /\ J (run [WDbStore m] (crash_w f0 w k torn)).
 Proof.
-  intros f0 w k torn m HJ HD Hok Hp.
-  apply db_store_succeeds_lemma; [apply crash_J_lemma; assumption | apply ds_ok_ds_inv; exact Hok | exact Hp].
+  intros f0 w k torn m HJ Hp. apply db_store_succeeds_lemma; [apply crash_J_lemma; exact HJ | exact Hp].
 Qed.
 
 (* The same at the level of the run context (Context._store_model: transaction, name link, annotation):
@@ -139,53 +132,58 @@ Qed.
    [annot_store old name description]; everything stays consistent. *)
 Theorem ctx_store_succeeds :
   forall (f : fs) (m : mdl) (c : str),
-    J f -> ds_inv f -> ctx_ok f -> read_node (lookup f annot_path) = Some c ->
+    J f -> ctx_ok f -> read_node (lookup f annot_path) = Some c ->
     exists_ f (pending (m_key m)) = false ->
     item_res (WStore m) f = inr tt
     /\ visible (run [WStore m] f) (m_key m) = true
     /\ (path_exists f (name_link (m_name m)) = false -> resolve_name (run [WStore m] f) (m_name m) = Some (m_key m))
     /\ read_node (lookup (run [WStore m] f) annot_path) = Some (annot_store c (m_name m) (m_desc m))
-    /\ ds_inv (run [WStore m] f) /\ J (run [WStore m] f) /\ ctx_ok (run [WStore m] f).
+    /\ J (run [WStore m] f) /\ ctx_ok (run [WStore m] f).
 Proof. exact ctx_store_succeeds_lemma. Qed.
 
-(* ... and the description is read back verbatim (with annotation_roundtrip below): a model entry that
-   was stored successfully is found under its name with its description. *)
+(* ... and the description is read back verbatim — any text, line breaks included (fix 81deceb): a model
+   entry that was stored successfully is found under its name with its description. *)
 Theorem stored_description_retrievable :
   forall (f : fs) (m : mdl) (c : str),
-    J f -> ds_inv f -> ctx_ok f -> read_node (lookup f annot_path) = Some c ->
+    J f -> ctx_ok f -> read_node (lookup f annot_path) = Some c ->
     exists_ f (pending (m_key m)) = false ->
-    ends_nlb (translate c) = true -> no_nl (m_desc m) = true -> name_ok (m_name m) = true ->
+    ends_nlb (translate c) = true -> name_ok (m_name m) = true ->
     exists c', read_node (lookup (run [WStore m] f) annot_path) = Some c'
                /\ annot_retrieve c' (m_name m) = AFound (m_desc m).
 Proof.
-  intros f m c HJ HD Hc Hr Hp H1 H2 H3.
-  destruct (ctx_store_succeeds_lemma f m c HJ HD Hc Hr Hp) as [_ [_ [_ [Ha _]]]].
+  intros f m c HJ Hc Hr Hp H1 H3.
+  destruct (ctx_store_succeeds_lemma f m c HJ Hc Hr Hp) as [_ [_ [_ [Ha _]]]].
   eexists. split; [exact Ha | apply annotation_roundtrip_lemma; assumption].
 Qed.
 
 (* ---- annotations -------------------------------------------------------------------------- *)
-(* store_annotation followed by retrieve_annotation returns the text verbatim, for every previous
-   content of the file that ends with a line terminator (or is empty), every text without a line
-   break and every name without line break or space. *)
+(* store_annotation followed by retrieve_annotation returns the text verbatim — EVERY text (backslashes
+   and line breaks are escaped since fix 81deceb; formerly guarded by no_nl) — for every previous content
+   of the file that ends with a line terminator (or is empty) and every name without line break or
+   space (the remaining guard: see Refuted.annotation_refuted_name). *)
 Theorem annotation_roundtrip :
   forall (file name a : str),
-    ends_nlb (translate file) = true -> no_nl a = true -> name_ok name = true ->
+    ends_nlb (translate file) = true -> name_ok name = true ->
     annot_retrieve (annot_store file name a) name = AFound a.
 Proof. exact annotation_roundtrip_lemma. Qed.
 
 (* ... the annotations of all other names are unchanged ... *)
 Theorem annotation_others_preserved :
   forall (file name a n : str),
-    ends_nlb (translate file) = true -> no_nl a = true -> name_ok name = true -> n <> name ->
+    ends_nlb (translate file) = true -> name_ok name = true -> n <> name ->
     annot_retrieve (annot_store file name a) n = annot_retrieve file n.
 Proof. exact annotation_others_lemma. Qed.
 
 (* ... and the file is again well formed, so the two statements above apply to every later store. *)
 Theorem annotation_wellformed_preserved :
   forall (file name a : str),
-    ends_nlb (translate file) = true -> no_nl a = true -> name_ok name = true ->
+    ends_nlb (translate file) = true -> name_ok name = true ->
     ends_nlb (translate (annot_store file name a)) = true.
 Proof. exact annotation_wf_preserved_lemma. Qed.
+
+(* the escaping itself: inverse for every text, and no line break in the escaped text *)
+Theorem escape_roundtrip : forall a : str, unescape (escape a) = a.
+Proof. exact unescape_escape. Qed.
 
 (* ---- log ---------------------------------------------------------------------------------- *)
 (* The quoting layer: the tokenizer reads back exactly the four fields of every record, in order, for
@@ -197,22 +195,23 @@ Theorem log_csv_roundtrip :
     csv_parse (log_file rows) = Some (header_row :: map row_fields rows).
 Proof. exact log_csv_roundtrip_lemma. Qed.
 
-(* retrieve_log returns the messages verbatim and in order when no message is one of read_csv's NA
-   strings or contains NUL and at least one message keeps the column a string column. *)
+(* retrieve_log returns the messages verbatim and in order — 'NA', '', '1', 'True' included since fix
+   90b40e7 (formerly guarded by the NA / column-type conjuncts) — when no message contains NUL (the
+   remaining guard: see Refuted.log_refuted_nul). *)
 Theorem log_roundtrip :
   forall (rows : list (str * str * str * str)),
     forallb row_plain rows = true -> log_guard (map msg_of rows) = true ->
     read_log (log_file rows) = LCells (map (fun r => CStr (msg_of r)) rows).
 Proof. exact log_roundtrip_lemma. Qed.
 
-(* ---- crashes without a torn write --------------------------------------------------------- *)
+(* ---- annotations and log across crashes ---------------------------------------------------- *)
 (* [ann_ok name a f]: the annotations file of f is well formed and holds annotation a for name.
-   At every crash point WITHOUT a torn write (torn = None) the annotation of a name survives any
-   workload whose items do not store an annotation for that name themselves and stay in the codec's
-   domain (guard [item_ann_ok]).  With a torn write this is false: Refuted.torn_annotation_refuted. *)
-Theorem annotations_survive_untorn_crash :
-  forall (f0 : fs) (w : list witem) (k : nat) (name a : str),
-    forallb (item_ann_ok name) w = true -> ann_ok name a f0 -> ann_ok name a (crash_w f0 w k None).
+   At EVERY crash point, torn or not (the file is replaced atomically since fix ffb4c75; formerly only
+   for torn = None), the annotation of a name survives any workload whose items do not store an
+   annotation for that name themselves and use names in the codec's domain (guard [item_ann_ok]). *)
+Theorem annotations_survive_crash :
+  forall (f0 : fs) (w : list witem) (k : nat) (torn : option nat) (name a : str),
+    forallb (item_ann_ok name) w = true -> ann_ok name a f0 -> ann_ok name a (crash_w f0 w k torn).
 Proof. exact annotations_survive_lemma. Qed.
 
 (* [log_state rows f]: log.csv holds exactly the header and the records rows.  At every crash point
